@@ -42,8 +42,10 @@ def _setup():
 
 
 class World:
-    def __init__(self, root, dirs, evict):
+    def __init__(self, root, dirs, evict, files=None, ncontents=None):
         G = _setup()
+        self.files = files or FILES
+        self.ncontents = ncontents or len(CONTENTS)
         self.G = G
         self.cache = G['cache']
         self.dir = tempfile.mkdtemp(dir=root)
@@ -53,7 +55,7 @@ class World:
         self.cache.parser_cache.clear()
         self.cache._CACHED_SIZE_TRIGGER = 2 if evict else 600
         self.content = {}
-        for f in FILES:
+        for f in self.files:
             self._write(f, 0)
 
     def path(self, f):
@@ -157,7 +159,7 @@ class World:
 
     def canon(self):
         G = self.G
-        fm = {f: os.path.getmtime(self.path(f)) for f in FILES}
+        fm = {f: os.path.getmtime(self.path(f)) for f in self.files}
         mem = []
         for v, g in G['gr'].items():
             for p, item in self.cache.parser_cache.get(g._hashed, {}).items():
@@ -175,7 +177,7 @@ class World:
                 continue
             vt = os.path.join(self.cdir(d), self.cache._VERSION_TAG)
             for v, g in G['gr'].items():
-                for f in FILES:
+                for f in self.files:
                     import hashlib
                     fh = hashlib.sha256(str(Path(self.path(f))).encode('utf-8')).hexdigest()
                     p = os.path.join(vt, '%s-%s.pkl' % (g._hashed, fh))
@@ -184,7 +186,7 @@ class World:
                             item = pickle.load(fhd)
                         ci = G['lines'].get(tuple(item.lines), -1)
                         disk.append((d, v, f, ci, fm[f] <= os.path.getmtime(p)))
-        return (tuple(self.content[f] for f in FILES), tuple(sorted(mem, key=repr)), tuple(sorted(disk)))
+        return (tuple(self.content[f] for f in self.files), tuple(sorted(mem, key=repr)), tuple(sorted(disk)))
 
     def close(self):
         shutil.rmtree(self.dir, ignore_errors=True)
@@ -193,16 +195,18 @@ class World:
 def ops_for(cfg):
     dirs = cfg['dirs']
     ops = []
-    for f in FILES:
-        for ci in range(len(CONTENTS)):
+    files = cfg.get('files', FILES)
+    vers = cfg.get('versions', VERS)
+    for f in files:
+        for ci in range(cfg.get('ncontents', len(CONTENTS))):
             ops.append(('write', f, ci))
         ops.append(('touch', f))
-        for v in VERS:
+        for v in vers:
             for d in dirs:
                 for mode in cfg['modes']:
                     ops.append(('parse', f, v, d, mode))
     for when in ('A', 'B'):
-        for ci in (1, 2):
+        for ci in range(1, cfg.get('ncontents', len(CONTENTS))):
             for v in cfg.get('racy_versions', VERS[:1]):
                 ops.append(('racy', 'p1.py', v, dirs[0], when, ci))
     ops.append(('drop',))
@@ -214,7 +218,7 @@ def ops_for(cfg):
 
 
 def replay(root, cfg, h):
-    w = World(root, cfg['dirs'], cfg.get('evict', False))
+    w = World(root, cfg['dirs'], cfg.get('evict', False), cfg.get('files'), cfg.get('ncontents'))
     last = None
     try:
         for o in h:
@@ -314,6 +318,11 @@ CONFIGS = {
     'two-dirs': dict(dirs=['d1', 'd2'], modes=['cache', 'cache+diff']),
     'evict': dict(dirs=['d1'], modes=['cache', 'cache+diff'], evict=True),
     'racy-both-grammars': dict(dirs=['d1'], modes=['cache', 'none'], racy_versions=VERS),
+    # a world small enough for the search to reach its fixpoint: every history of any length is covered
+    'tiny-fixpoint': dict(dirs=['d1'], modes=['cache', 'cache+diff'], files=['p1.py'], versions=VERS[:1], ncontents=2),
+    'small-fixpoint': dict(dirs=['d1'], modes=['cache'], files=FILES, versions=VERS[:1], ncontents=2),
+    'medium-fixpoint': dict(dirs=['d1'], modes=['cache', 'cache+diff'], files=FILES, versions=VERS, ncontents=2, racy_versions=VERS),
+    'tiny2-fixpoint': dict(dirs=['d1'], modes=['cache'], files=['p1.py'], versions=VERS, ncontents=2, racy_versions=VERS),
 }
 
 
@@ -336,9 +345,9 @@ def run(tier, seed):
     root = env.scratch_root()
     try:
         if tier == 'quick':
-            plan = [('one-dir', 5), ('two-dirs', 4), ('evict', 5), ('racy-both-grammars', 4)]
+            plan = [('tiny-fixpoint', 30), ('tiny2-fixpoint', 30), ('small-fixpoint', 30), ('one-dir', 5), ('two-dirs', 4), ('evict', 5), ('racy-both-grammars', 4)]
         else:
-            plan = [('one-dir', 6), ('two-dirs', 5), ('evict', 6), ('racy-both-grammars', 5)]
+            plan = [('tiny-fixpoint', 40), ('tiny2-fixpoint', 40), ('small-fixpoint', 40), ('medium-fixpoint', 14), ('one-dir', 6), ('two-dirs', 5), ('evict', 6), ('racy-both-grammars', 5)]
         S = T = 0
         allfix = True
         for name, depth in plan:
@@ -352,11 +361,14 @@ def run(tier, seed):
     finally:
         core.close_pool()
         shutil.rmtree(root, ignore_errors=True)
+    R.coverage['fixpoints'] = [sec['name'] for sec in R.sections if sec.get('fixpoint_reached')]
     R.rule = ('BFS over histories of {write, touch, parse (cache / cache+diff_cache / diff_cache / none / with code), '
               'parse with an in-flight write at two points, drop memory, remove cache dir, advance 11 min} on 2 files x '
               '3 contents x 2 grammars x 1-2 cache directories with a virtual clock; state = canonical form of files, '
               'memory entries and disk entries (one validity bit per entry); every transition executes parso on a '
-              'private directory; histories are complete up to the stated depth per configuration')
+              'private directory; histories are complete up to the stated depth per configuration, and the *-fixpoint '
+              'worlds (1-2 files, 2 contents, 1-2 grammars) are explored until no new state appears: every history '
+              'of any length over their operations is covered')
     R.assumptions = ['timestamps matter only through the three comparisons in parso.cache (DESIGN 4/C16)',
                      'one process at a time; in-flight writes at FileIO call boundaries']
     return R.finish(recheck)
